@@ -117,6 +117,22 @@ class Gen:
                      "  H_ASSERT (h_same_%s (got, exp), \"%s: result equals the IEEE operation\");" % (ct, t, t, ct, t, n, full, t, full),
                   "%s: all %s bit patterns" % (full.lower(), ct), heavy=(p == "LD" or op in ("MUL", "DIV")), group="fp")
 
+    def fp3imm(self, p, op, imm, second=True):
+        """floating-point op with an IMMEDIATE operand (link-time shortcuts / operand lowering must keep IEEE results, e.g. -0.0 + 0.0 = +0.0)"""
+        full = p + op
+        if not self.have(full): return
+        t = {"F": "f", "D": "d"}[p]
+        ct = {"F": "float", "D": "double"}[p]
+        sfx = "f" if p == "F" else ""
+        n = "fp3i_%s_%s%s" % (full, "b" if second else "a", imm.replace("-", "m").replace(".", "p"))
+        ops = "a, %s%s" % (imm, sfx) if second else "%s%s, a" % (imm, sfx)
+        self.func("f_" + n, "%s, %s:a, %s:b" % (t, t, t), ["local %s:r" % t, "%s r, %s" % (full.lower(), ops), "ret r"])
+        call = "ref_%s (a, (%s) %s)" % (full, ct, imm) if second else "ref_%s ((%s) %s, a)" % (full, ct, imm)
+        self.case(n, "  %s a = h_nd_%s (), b = 0; (void) nd ();\n  %s got = h_run_%s2 (FID_%s, a, b), exp = %s;\n"
+                     "  H_ASSERT (h_same_%s (got, exp), \"%s with immediate %s: result equals the IEEE operation\");\n"
+                     "  if (a == 0 && 1 / a < 0) H_WITNESS (\"negative zero operand\");" % (ct, t, ct, t, n, call, t, full, imm),
+                  "%s r, %s: all %s bit patterns" % (full.lower(), ops, ct), heavy=False, group="fp")
+
     def fpneg(self, p):
         full = p + "NEG"
         if not self.have(full): return
@@ -296,6 +312,11 @@ class Gen:
         for o in ["LSHS", "RSHS", "URSHS"]:
             for imm in ([1, 31] if tier == "thorough" else [31]): self.int3(o, "imm", imm)
         for op in INT2: self.int2(op)
+        for p in ("F", "D"):
+            for op in FP3:
+                for imm in ("0.0", "1.0") + (("-0.0", "2.0") if tier == "thorough" else ()):
+                    self.fp3imm(p, op, imm, True)
+                    if op in ("SUB", "DIV") or tier == "thorough": self.fp3imm(p, op, imm, False)
         for p in ("F", "D", "LD"):
             for op in FP3: self.fp3(p, op)
             self.fpneg(p)
